@@ -11,6 +11,7 @@ INVARIANT I_Content
 INVARIANT I_Values
 INVARIANT I_Empty
 INVARIANT I_Unreadable
+INVARIANT I_Objects
 INVARIANT I_Plat
 INVARIANT I_Face
 POSTCONDITION Witnesses
